@@ -26,7 +26,7 @@ BUDGET_S = {'quick': 120, 'thorough': 1800}
 RULE = ("bank_walk histories: seeded sequences of abstract operations (API writes/reads by current and explicit mode, SPSR accesses, MOV/MRS/MSR/"
         "CPS/STM^/LDM^/SRS/return instructions, exception entries) resolved at run time, compared after every operation with a banked-register "
         "model over all (register, mode) pairs; range-stream/range-entry runs: 32-bit range + PC alignment monitor after every tick of corrupted "
-        "streams incl. programs at 0x0 and 0xFFFFFFF0. distinct_nontrivial = distinct (operation kind, current mode, target mode/bank) triples "
+        "streams incl. programs at 0x0 and 0xFFFFFFF0 (there with a vocabulary of PC-relative instructions whose results pass 2^32). distinct_nontrivial = distinct (operation kind, current mode, target mode/bank) triples "
         "exercised in histories that visited >= 3 modes, plus distinct (opcode class, mode) pairs under the range monitor.")
 ASSUMPTIONS = [
     "modes are restricted to those legal for the configuration; Monitor-bank accesses only in Secure state (otherwise UNPREDICTABLE)",
